@@ -117,6 +117,7 @@ func shardingCone(c *core.Ctx, entries [][2]string) []*ssa.Function {
 }
 
 func runC13(c *core.Ctx) {
+	c13WorkingCopyNormalised(c)
 	c13ShuffleWorksOnCopies(c)
 	cone := shardingCone(c, [][2]string{{"randHashShuffler", "UpdateNodeLists"}, {"indexHashedNodesCoordinator", "EpochStartPrepare"}})
 	n := checkMapOrder(c, "C13/map-order-independent", cone, c13Exceptions)
@@ -301,4 +302,35 @@ func c13ShuffleWorksOnCopies(c *core.Ctx) {
 			"nothing reachable from this field of the argument is written",
 			"shuffleNodes writes into its argument's "+names[r]+" ("+bad+"): the caller's map is changed and the working copy no longer has the shape the rest of the function assumes, so the outcome depends on how the caller built its maps")
 	}
+}
+
+// c13WorkingCopyNormalised: shuffleNodes gives its working copy of the waiting map an entry for
+// every shard and the metachain before anything is distributed: the outcome must not depend on
+// whether the caller's map had an empty entry or no entry for a shard with nobody waiting.
+func c13WorkingCopyNormalised(c *core.Ctx) {
+	fn := anchorF(c, "sharding", "shuffleNodes")
+	if fn == nil {
+		return
+	}
+	norm := func(in ssa.Instruction) bool {
+		cc := core.CallOf(in)
+		return cc != nil && cc.StaticCallee() != nil && cc.StaticCallee().Name() == "createListsForAllShards"
+	}
+	n := 0
+	core.Instrs(fn, func(in ssa.Instruction) {
+		cc := core.CallOf(in)
+		if cc == nil {
+			return
+		}
+		name := core.CallDesc(cc).Name
+		if name != "distributeValidators" && name != "DistributeValidators" && name != "moveMaxNumNodesToMap" {
+			return
+		}
+		n++
+		esc, path := core.PathQ{Fn: fn, Via: norm, Target: func(x ssa.Instruction, _ *ssa.BasicBlock) bool { return x == in }}.Escape()
+		c.Check(esc == nil, "C13/working-copy-normalised", fmt.Sprintf("shuffleNodes/%s#%d", name, n), in.Pos(),
+			"the waiting copy was given an entry for every shard before this distribution step",
+			"shuffleNodes reaches "+name+" without createListsForAllShards on its working copy ("+c.P.PathString(path)+"): a shard with nobody waiting takes part in the distribution or not depending on how the caller built its map, so two nodes with the same validators compute different lists")
+	})
+	c.Floor("C13/working-copy-normalised", 3)
 }
